@@ -1,9 +1,11 @@
 import SimplicityModel.Driver.ProgUtil
 import SimplicityModel.Driver.C06
-import SimplicityModel.PrunePlan
-import SimplicityModel.PruneIds
+import SimplicityModel.PrunePipeline
 /-! C08: `prune <plan> [W:…] [T:…] [C:…] [K:…] [J:…] [E:<env seed>]` →
 `ok <tok_0> … <tok_{n-1}> cmr=<root> principal=yes|no antidos=ok|rejected|n/a` | `fail <kind>`.
+
+This file only parses the line, calls `Prog.prunePipeline` / `Prog.Pruned.antiDos`
+(`PrunePipeline.lean`, the functions `Props.C08.pipeline_antiDos` is about) and prints.
 
 The model: types of the plan (`inferM`, all nodes, root `1 → 1`), commitment and identity roots
 (`cmrs`, `ihrs`); tracker = the record of `evalT` on the elaborated term, labelled with the
@@ -41,88 +43,13 @@ def nodeText : Node → String
   | .jet name => "jet," ++ name
   | .hidden h => "hidden," ++ hex32 h
 
-def isWitness : Node → Bool | .witness => true | _ => false
-def isCase : Node → Bool | .case _ _ => true | _ => false
+/-- run, record, rewrite, re-type, shrink the witnesses: `Prog.prunePipeline` on the line's data -/
+def prunePipeline (p : Plan) (ex : Extras) : PruneRes :=
+  Prog.prunePipeline ex.jetTy (fun n => some ((ex.jetCmr n).getD 0)) ex.jetSem ex.wit p
 
-structure Pruned where
-  plan : Plan
-  reach : Array Bool
-  /-- principal arrows of the pruned program (`inferM` with the reachability mask) -/
-  codeArrows : Array (Ty × Ty)
-  /-- compact bits of the pruned witness values (reachable witness nodes) -/
-  wits : List (Nat × List Bool)
-  cmr : Array Nat
-
-inductive Res
-  | fail (k : Fail)
-  | ok (p : Pruned)
-  | err (s : String)
-
-/-- run, record, rewrite, re-type, shrink the witnesses -/
-def prunePipeline (p : Plan) (ex : Extras) : Res :=
-  if !wf p then .err "bad-plan" else
-  let jetCmr := fun n => some ((ex.jetCmr n).getD 0)
-  let all : Nat → Bool := fun _ => true
-  match inferM ex.jetTy p all true, cmrs jetCmr p with
-  | .ok arrows, some cm =>
-    match ihrs jetCmr p arrows ex.wit with
-    | none => .err "model-annot-failed"
-    | some an =>
-      let ids : Nat → Nat := fun i => (an.getD i (0, 0)).2
-      let env : Env := { plan := p, arrows := arrows, wit := ex.wit, cmr := cm, jets := ex.jetSem }
-      match elabNode env (p.size + 1) (p.size - 1) with
-      | none => .err "model-elab-failed"
-      | some ⟨_, _, t⟩ =>
-        match evalT t (labOf p ids (p.size + 1) (p.size - 1)) .unit with
-        | .error f => .fail f
-        | .ok (_, tr) =>
-          let p1 := prunePlan tr.sides ids (fun i => cm.getD i 0) p
-          let reach := reachable p1
-          match inferM ex.jetTy p1 (fun i => reach.getD i false) true, cmrs jetCmr p1 with
-          | .ok a1, some cm1 =>
-            let ws := (List.range p.size).filterMap fun i =>
-              if reach.getD i false && isWitness (p1.getD i .unit) then
-                (do let bits ← ex.wit i
-                    let v ← valOfCompact (arrows.getD i (.one, .one)).2 bits
-                    let w ← pruneV v (a1.getD i (.one, .one)).2
-                    pure (i, compact w)) <|> some (i, [true, false, true, false, true, false, true])  -- marks a model failure
-              else none
-            .ok { plan := p1, reach := reach, codeArrows := a1, wits := ws, cmr := cm1 }
-          | .ok _, none => .err "bad-plan"
-          | _, _ => .err "model-reinference-failed"
-  | .ok _, none => .err "bad-plan"
-  | .typeError, _ => .err "ill-typed"
-  | .occurs, _ => .err "ill-typed"
-  | .badPlan, _ => .err "bad-plan"
-  | .fuel, _ => .err "model-fuel"
-
-/-- the anti-DoS conditions on the model's own run of the pruned plan.  Identities are the
-identity roots of the *pruned* program (libsimplicity evaluates the decoded DAG, in which nodes
-with one identity root are one node): every reachable node's identity executed, both sides of
-every remaining case identity taken. -/
-def Pruned.antiDos (q : Pruned) (ex : Extras) : String :=
-  let wit : Nat → Option (List Bool) := fun i =>
-    match q.wits.find? (·.1 = i) with
-    | some w => some w.2
-    | none => ex.wit i
-  let jetCmr := fun n => some ((ex.jetCmr n).getD 0)
-  match ihrs jetCmr q.plan q.codeArrows wit with
-  | none => "model-annot-failed"
-  | some an =>
-    let ids : Nat → Nat := fun i => (an.getD i (0, 0)).2
-    let env : Env := { plan := q.plan, arrows := q.codeArrows, wit := wit, cmr := q.cmr, jets := ex.jetSem }
-    match elabNode env (q.plan.size + 1) (q.plan.size - 1) with
-    | none => "model-elab-failed"
-    | some ⟨_, _, t⟩ =>
-      match evalT t (labOf q.plan ids (q.plan.size + 1) (q.plan.size - 1)) .unit with
-      | .error _ => "model-pruned-run-fails"
-      | .ok (_, tr) =>
-        let okAll := (List.range q.plan.size).all fun i =>
-          !(q.reach.getD i false) ||
-            (tr.nodes.contains (ids i) &&
-              (!(isCase (q.plan.getD i .unit)) ||
-                (tr.sides.contains (ids i, false) && tr.sides.contains (ids i, true))))
-        if okAll then "ok" else "rejected"
+/-- the anti-DoS conditions on the model's own run of the pruned plan: `Prog.Pruned.antiDos` -/
+def antiDos (q : Pruned) (ex : Extras) : String :=
+  q.antiDos (fun n => some ((ex.jetCmr n).getD 0)) ex.jetSem ex.wit
 
 def showPruned (q : Pruned) (ex : Extras) : String :=
   let toks := (List.range q.plan.size).map fun i =>
@@ -134,7 +61,7 @@ def showPruned (q : Pruned) (ex : Extras) : String :=
       else base
     else "-"
   "ok " ++ " ".intercalate toks ++ " cmr=" ++ hex32 (q.cmr.getD (q.plan.size - 1) 0) ++
-    " principal=yes antidos=" ++ q.antiDos ex
+    " principal=yes antidos=" ++ antiDos q ex
 
 def pruneOp (rest : List String) : String :=
   match parsePlan rest with
